@@ -110,6 +110,20 @@ theorem C18_no_number_from_zero_division (normalized : Bool) (d up lo base : Rat
   · simp only [coef, quot]
     split <;> simp
 
+/-- … and EXACTLY then: an entry has no finite value iff the displacement times the scanned value is 0, or the
+    coefficient is scaled and the unperturbed flux is 0 (what pandas reports there is `inf` / `nan`, never an exception) -/
+theorem C18_entry_undefined_iff (normalized : Bool) (d old up lo base : Rat) :
+    coef normalized d old up lo base = none ↔ (2 * d * old = 0 ∨ (normalized = true ∧ base = 0)) := by
+  simp only [coef, quot]
+  by_cases h1 : 2 * d * old = 0
+  · simp [h1]
+  · cases normalized with
+    | false => simp [h1]
+    | true =>
+      by_cases h2 : base = 0
+      · simp [h1, h2]
+      · simp [h1, h2]
+
 /-! ### response coefficients are the same quotient -/
 
 /-- every entry of a response-coefficient column is the SAME quotient `coef` the elasticities use: of the last rows of
@@ -198,9 +212,11 @@ theorem C18_source_perturbations (old d : Rat) :
 open Mxl.Generated.C18 in
 /-- structure of the source: both model-writing routines reset in a `finally:` (the models above branch on these
     flags, the frame theorems need them to be `true`), and `parameter_elasticities` resolves `variables` once, before
-    the first perturbation, handing it to every flux evaluation -/
+    the first perturbation, handing it to every flux evaluation; `Model.update_variables` / `update_parameters` check every
+    name before the first write (the `wr` steps: a failing update leaves the model as it was) -/
 theorem C18_source_structure :
-    parFinallyResets = true ∧ respFinallyRestores = true ∧ parStateResolvedOnce = true := by decide
+    parFinallyResets = true ∧ respFinallyRestores = true ∧ parStateResolvedOnce = true ∧
+    updatesCheckNamesFirst = true := by decide
 
 /-! ### the model is left as it was found -/
 
